@@ -28,6 +28,13 @@ def rules(t):
                 if same(rhs, x): ok = True
                 elif const_eval(rhs) is not None and "slice(" in fmt(x): ok = ("SLICE" if False else True) and const_eval(rhs) == t.F.consts["renet::packet::SLICE_SIZE"]["val"]
             if not ok: r.bad(f"{name}|unguarded|{fmt(x)[:30]}", s, f"budget reduced by {fmt(x)[:50]} without a dominating `budget < x` test")
+            # the amount charged is the length of the bytes that are emitted (not a separately computed estimate)
+            xs = strip(x)
+            if not (isinstance(xs, tuple) and xs[0] == "call" and xs[1].endswith("Bytes::len")): r.bad(f"{name}|charge-not-len", s, f"the budget is charged {fmt(x)[:60]}, which is not the length of the payload that is emitted: payload bytes can leave uncharged")
+            else:
+                emitted = fmt(strip(xs[2][0])).lstrip("&*")
+                pushed = [fmt(t.arg(c, 1)) for c in t.calls(r"Vec.*::push$", f)]
+                if not any(emitted in a for a in pushed): r.bad(f"{name}|charge-other", s, f"the budget is charged the length of {emitted[:50]}, which is not what is emitted")
     out.append(r)
     r = RuleResult("C14.b", "payload is emitted only after its bytes were deducted", floor=4)
     f = t.fn("SendChannelReliable::get_packets_to_send")
